@@ -23,3 +23,7 @@ def check(run, views, tier):
         rr.r_readexact(run, F)
         rr.r_dispatch(run, F)
         rr.r_token(run, F)
+        # a fault raised while the *payload bridge* feeds a parser must surface too (C08's forwarding clauses)
+        from ..engine import include as _inc
+        from . import c08 as _c08
+        _inc(run, _c08, {cfg: {"ipp": F}}, tier, "R-FORWARD|")
